@@ -9,6 +9,9 @@
 (* call history), C12 (Load classes).                                      *)
 (***************************************************************************)
 EXTENDS Zone, TraceCommon
+RealTMin == <<-1, 5808, 5477, 368, 3372, 922>>
+RealTMax == <<1, 5807, 5477, 368, 3372, 922>>
+RealBigBang == <<-1, 3488, 342, 7523, 6460, 57>>
 
 Loads == SelectSeq(TraceLog, LAMBDA e : e.e = "Load")
 Dec == TLCEval([k \in 1..Len(Loads) |-> Decode(Loads[k].bytes)])
@@ -69,8 +72,8 @@ OkRT2(e) == /\ e.ub = 0
 \* the rule change (instant) whose civil description is <<from, to>>, or <<>> if there is none
 RuleChangeShown(Z, from, to) ==
   LET C == RuleCtx(Z, to[1])
-      v == {c.at : c \in {c \in C : BreakC(Z, C, c.at).cs = to /\ IsRealRule(Z, C, c) /\ TrCivilC(Z, C, c.at) = <<from, to>>}} IN
-  IF v = {} THEN <<>> ELSE CHOOSE c \in v : TRUE
+      v == {i \in RealRuleIdx(Z, C) : BreakC(Z, C, C.seq[i].at).cs = to /\ TrCivilC(Z, C, C.seq[i].at) = <<from, to>>} IN
+  IF v = {} THEN <<>> ELSE C.seq[CHOOSE i \in v : TRUE].at
 OkNext(e) ==
   /\ e.ub = 0
   /\ Oracle(e.z) => LET Z == ZT[e.z]  k == NextRecorded(Z, e.t) IN
